@@ -7,6 +7,7 @@ Vocabulary (`Yarel/Proofs/GcSpec.lean`):
   `ReachTraced h i` `blacken()` can possibly be invoked on `i` (`CallReach h .blacken i`): roots are marked, marked
                     boxes get blackened by a pass, `<op>` on a box invokes `e.sel op` on the target of pointer `e`
   `Covered h`       every pointer has `inBlacken = some _` or points at a rooted box
+  `MarkCovered h`   every pointer has `inMark = some .mark` or points at a rooted box
   `Closed h`        every pointer points into the heap
   `WellFormed h`    no pointer has `inBlacken = some .mark` or `inMark = some .blacken`
 `collect fuel h = some r` ⇔ `collectE fuel h = .ok r`; `collectE` distinguishes `outOfFuel` from `dangling`.
@@ -16,6 +17,7 @@ import Yarel.Proofs.GcFuel
 import Yarel.Proofs.GcWitness
 import Yarel.Proofs.GcSchema
 import Yarel.Proofs.GcClosed
+import Yarel.Proofs.GcMark
 
 namespace Yarel.Gc
 
@@ -154,6 +156,67 @@ theorem exHeap'_collect : collect 50 exHeap' =
 example : [0, 1, 2, 3, 7] = [0, 1, 2, 3, 7] :=
   collect_edge_order_independent exHeap_collect exHeap'_collect exHeap_covered (coveredB_iff.mp (by decide)) rfl
     (graphMapIdB_sound (by decide)) (graphMapIdB_sound (by decide))
+
+/-! ## 3b. safety from `mark()`-coverage -/
+
+/-- `exHeap` with the `blacken()` body of box 2 ignoring its pointer to 3, and box 1 tracing its pointer to 2 with
+`mark` inside `blacken()` (F22 shape): not `Covered`, not `WellFormed`, but every `mark()` body marks everything -/
+def exHeapMark : Heap := #[
+  ⟨1, 1, 40, .white, [.good 1, .good 2]⟩,
+  ⟨2, 0, 24, .white, [.f22 2]⟩,
+  ⟨2, 0, 24, .white, [.good 1, ⟨3, some .mark, none⟩]⟩,
+  ⟨3, 0, 16, .white, [.untraced 7]⟩,
+  ⟨2, 0, 24, .white, [.good 5, .good 1]⟩,
+  ⟨2, 0, 24, .white, [.good 4]⟩,
+  ⟨0, 0, 8, .white, []⟩,
+  ⟨4, 2, 64, .white, []⟩]
+
+theorem exHeapMark_collect : collect 50 exHeapMark =
+    some { retained := [0, 1, 2, 3, 7], bytesFreed := 56,
+           colours := #[.black, .black, .black, .black, .white, .white, .white, .black] } := by decide
+theorem exHeapMark_markCovered : MarkCovered exHeapMark := markCoveredB_iff.mp (by decide)
+theorem exHeapMark_not_covered : ¬ Covered exHeapMark := fun hc => by
+  have := coveredB_iff.mpr hc
+  revert this
+  decide
+theorem exHeapMark_not_wellFormed : ¬ WellFormed exHeapMark := fun hc => by
+  have := wellFormedB_iff.mpr hc
+  revert this
+  decide
+
+/-- Nothing reachable is freed, provided every pointer is traced with `mark` by the owner's `mark()` body or
+points at a rooted box — whatever the `blacken()` bodies do (no well-formedness hypothesis is needed: a box that
+`mark()` reaches while BLACK is re-greyed AND its body runs again; grey boxes are always blackened by a later
+pass; the proof tracks the ghost set of boxes whose `mark()` body has run, `Yarel/Proofs/GcMark.lean`). -/
+theorem collect_safe_mark {fuel : Nat} {h : Heap} {r : CollectResult} (hr : collect fuel h = some r)
+    (hcov : MarkCovered h) : ∀ i, Reach h i → i ∈ r.retained :=
+  collectE_safe_mark (collect_eq_some.mp hr) hcov
+#print axioms collect_safe_mark
+
+example : ∀ i, Reach exHeapMark i → i ∈ [0, 1, 2, 3, 7] := collect_safe_mark exHeapMark_collect exHeapMark_markCovered
+
+theorem collect_exact_mark {fuel : Nat} {h : Heap} {r : CollectResult} (hr : collect fuel h = some r)
+    (hcov : MarkCovered h) : ∀ i, i ∈ r.retained ↔ Reach h i :=
+  fun i => ⟨fun hi => (collect_complete hr i hi).2, collect_safe_mark hr hcov i⟩
+#print axioms collect_exact_mark
+
+example : ∀ i, i ∈ [0, 1, 2, 3, 7] ↔ Reach exHeapMark i := collect_exact_mark exHeapMark_collect exHeapMark_markCovered
+
+/-- either kind of coverage suffices (no extra hypothesis on the `mark()`-coverage side) -/
+theorem collect_safe_either {fuel : Nat} {h : Heap} {r : CollectResult} (hr : collect fuel h = some r)
+    (hcov : Covered h ∨ MarkCovered h) : ∀ i, Reach h i → i ∈ r.retained :=
+  hcov.elim (collect_safe hr) (collect_safe_mark hr)
+#print axioms collect_safe_either
+
+/-- `blacken()`-coverage fails, `mark()`-coverage holds -/
+example : ¬ Covered exHeapMark ∧ ∀ i, Reach exHeapMark i → i ∈ [0, 1, 2, 3, 7] :=
+  ⟨exHeapMark_not_covered, collect_safe_either exHeapMark_collect (Or.inr exHeapMark_markCovered)⟩
+/-- the other disjunct -/
+example : ∀ i, Reach exHeap i → i ∈ [0, 1, 2, 3, 7] := collect_safe_either exHeap_collect (Or.inl exHeap_covered)
+/-- the two notions are incomparable: `exUncovered` has neither, this heap is `Covered` but not `MarkCovered` -/
+example : coveredB #[⟨0, 1, 8, .white, [⟨1, none, some .blacken⟩]⟩, ⟨0, 0, 8, .white, []⟩] = true ∧
+    markCoveredB #[⟨0, 1, 8, .white, [⟨1, none, some .blacken⟩]⟩, ⟨0, 0, 8, .white, []⟩] = false := by decide
+example : coveredB exUncovered = false ∧ markCoveredB exUncovered = false := by decide
 
 /-! ## 4. termination -/
 
@@ -343,6 +406,14 @@ theorem label_covered {S : Schema} {kinds : List Nat} {fields : Nat → List (Na
   label_covered' hcov hty hex
 #print axioms label_covered
 
+/-- the same for the `mark()` bodies and `collect_safe_mark` -/
+theorem label_mark_covered {S : Schema} {kinds : List Nat} {fields : Nat → List (Nat × List Nat)}
+    {exempt : List (Nat × Nat × Nat)} {h : RawHeap}
+    (hcov : S.markCovers kinds fields exempt = true) (hty : WellTyped kinds fields h)
+    (hex : ExemptRooted exempt h) : MarkCovered (label S h) :=
+  label_mark_covered' hcov hty hex
+#print axioms label_mark_covered
+
 /-- … and a table whose bodies only use their own op makes them satisfy the hypotheses of `collect_terminates` -/
 theorem label_terminates {S : Schema} {kinds : List Nat} {fields : Nat → List (Nat × List Nat)} {h : RawHeap}
     (hwf : S.wellFormed kinds = true) (hty : WellTyped kinds fields h) {fuel : Nat}
@@ -371,6 +442,9 @@ example : (exSchema false).wellFormed [0, 1, 2, 3, 4] = false := by decide
 example : (exSchema true).blackenCovers [0, 1, 2, 3, 4] exFields [(2, 1, 4)] = true := by decide
 example : (exSchema true).wellFormed [0, 1, 2, 3, 4] = true := by decide
 
+/-- the `mark()` bodies of the table as written in yarel (F22) do cover everything -/
+example : (exSchema false).markCovers [0, 1, 2, 3, 4] exFields [(2, 1, 4)] = true := by decide
+
 /-- raw version of `f22Real` plus a rooted class box 5 that both vecs point at through the exempt field 1 -/
 def exRaw : RawHeap := #[
   ⟨0, 0, 32, .white, []⟩,
@@ -386,6 +460,9 @@ example : Covered (label (exSchema true) exRaw) :=
 example : ∃ r, collect (fuelBound (label (exSchema true) exRaw)) (label (exSchema true) exRaw) = some r :=
   label_terminates (kinds := [0, 1, 2, 3, 4]) (fields := exFields) (by decide) (wellTypedB_sound (by decide))
     (Nat.le_refl _)
+example : MarkCovered (label (exSchema false) exRaw) :=
+  label_mark_covered (kinds := [0, 1, 2, 3, 4]) (fields := exFields) (exempt := [(2, 1, 4)]) (by decide)
+    (wellTypedB_sound (by decide)) (exemptRootedB_sound (by decide))
 example : coveredB (label (exSchema true) exRaw) = true := by decide
 example : collect 30 (label (exSchema true) exRaw) =
     some { retained := [0, 1, 2, 3, 4, 5], bytesFreed := 0,
